@@ -61,6 +61,8 @@ func judge(r *run, res *simrt.Result) {
 	r.checkOrder(m)
 	r.checkTeardown(m)
 	r.checkInnocent(m)
+	r.checkRetained(m)
+	r.checkReceiver(m)
 	r.relabel()
 }
 
@@ -445,6 +447,17 @@ func (r *run) checkRouting(m *Model) {
 				r.viol("C01", "delivery-qos", "C01/wrong-qos"+emptyLevelTag(p, grantsBy[sk]), "%s received message %s (publish QoS %d) at QoS %v; matching subscriptions: %s", who, p.Key, p.QoS, qs, fmtGrants(grantsBy[sk]))
 			}
 			if certain && len(copies) == 0 {
+				// an in-process callback invoked with the retain flag inside a
+				// matching Subscribe call may equally be the live forward
+				ambiguous := false
+				for _, d := range m.Deliv {
+					if d.Retain && d.C == nil && sk.c == nil && d.CB == sk.cb && d.Key == p.Key {
+						ambiguous = true
+					}
+				}
+				if ambiguous {
+					continue
+				}
 				r.viol("C01", "at-least-once", "C01/missing-delivery"+emptyTag(p)+emptyLevelTag(p, grantsBy[sk]), "%s holds a matching subscription for the whole time in which the broker accepted message %s (topic %q, QoS %d, %d bytes, window [%d,%d]) but never received it; subscriptions: %s", who, p.Key, p.Topic, p.QoS, len(p.Payload), p.Lo, p.Hi, fmtGrants(grantsBy[sk]))
 			}
 		}
@@ -691,4 +704,346 @@ func (r *run) otherEnds(me *Conn) string {
 		return "none"
 	}
 	return strings.Join(parts, ", ")
+}
+
+// ---------------------------------------------------------------- C08 retained messages
+
+// subReq is one answered SUBSCRIBE (or in-process Subscribe call) with the
+// retained deliveries that belong to it.
+type subReq struct {
+	c        *Conn
+	who      string
+	lo, hi   int64 // window of the request: first byte .. SUBACK last byte (call .. return)
+	filters  []string
+	codes    []byte
+	retained []*Delivery
+}
+
+func (r *run) checkRetained(m *Model) {
+	h := m.H
+	var reqs []*subReq
+	delivOf := map[*WirePkt]*Delivery{}
+	for _, d := range m.Deliv {
+		if d.W != nil {
+			delivOf[d.W] = d
+		}
+	}
+	for _, c := range h.Conns {
+		if !accepted(c) {
+			continue
+		}
+		// walk the down stream: a SUBACK opens a block, the next response closes it
+		respOf := map[*WirePkt]*Req{}
+		for _, rq := range m.Reqs[c] {
+			if rq.Resp != nil {
+				respOf[rq.Resp] = rq
+			}
+		}
+		var cur *subReq
+		for _, w := range c.Down {
+			if isResp(w.P.Type) {
+				cur = nil
+				if rq := respOf[w]; rq != nil && w.P.Type == refmqtt.SUBACK && len(w.P.QoSs) == len(rq.W.P.Filters) {
+					cur = &subReq{c: c, who: fmt.Sprintf("connection %d", c.Idx), lo: rq.W.First, hi: w.Last, filters: rq.W.P.Filters, codes: w.P.QoSs}
+					reqs = append(reqs, cur)
+				}
+				continue
+			}
+			if w.P.Type != refmqtt.PUBLISH || !w.P.Retain {
+				continue
+			}
+			d := delivOf[w]
+			if cur != nil && w.Last > cur.hi {
+				// the value may be read from the store any time until it is sent
+				cur.hi = w.Last
+			}
+			if cur == nil {
+				r.viol("C08", "retain-flag-on-forward", "C08/retain-flag-outside-subscribe", "connection %d received PUBLISH %s with the retain flag set although it does not follow a SUBACK of that connection (messages forwarded to existing subscriptions must carry retain flag 0)", c.Idx, w.P)
+				continue
+			}
+			cur.retained = append(cur.retained, d)
+		}
+	}
+	// in-process Subscribe calls
+	for _, a := range h.API {
+		if a.Op.K != "sub" || a.Err != "" {
+			continue
+		}
+		q := a.Op.QoS
+		if q > h.Script.Knobs.MaxQoS {
+			q = h.Script.Knobs.MaxQoS
+		}
+		sr := &subReq{who: fmt.Sprintf("in-process subscriber %d", a.Op.CB), lo: a.Call, hi: a.Ret, filters: []string{a.Op.Filter}, codes: []byte{q}}
+		for _, d := range m.Deliv {
+			if d.C == nil && d.CB == a.Op.CB && d.Retain && d.Stamp > a.Call && d.Stamp < a.Ret {
+				sr.retained = append(sr.retained, d)
+			}
+		}
+		reqs = append(reqs, sr)
+	}
+	// retained publishes per topic
+	byTopic := map[string][]*Pub{}
+	for _, p := range m.Pubs {
+		if p.Retain && !p.Never {
+			byTopic[p.Topic] = append(byTopic[p.Topic], p)
+		}
+	}
+	topicsSorted := make([]string, 0, len(byTopic))
+	for t := range byTopic {
+		topicsSorted = append(topicsSorted, t)
+	}
+	sort.Strings(topicsSorted)
+	for _, sr := range reqs {
+		used := map[*Delivery]bool{}
+		for _, t := range topicsSorted {
+			var fq []byte // granted QoS of the request's filters matching t
+			anyEmpty := false
+			for _, ot := range topicsSorted {
+				// a retained topic with an empty level aliases other topics in
+				// the store (known defect of the topic tree)
+				if hasEmptyLevel(ot) {
+					anyEmpty = true
+				}
+			}
+			for i, f := range sr.filters {
+				if sr.codes[i] == 0x80 || !refmqtt.ValidFilter(f) {
+					continue
+				}
+				if hasEmptyLevel(f) {
+					anyEmpty = true
+				}
+				if refmqtt.Match(f, t) {
+					fq = append(fq, sr.codes[i])
+				}
+			}
+			tag := ""
+			if anyEmpty {
+				tag = "/empty-level"
+			}
+			// value set V
+			pubs := byTopic[t]
+			superseded := func(v *Pub) bool {
+				for _, w := range pubs {
+					if w != v && w.Certain && w.Hi < sr.lo && (v == nil || v.Hi < w.Lo) {
+						return true
+					}
+				}
+				return false
+			}
+			nonePossible := !superseded(nil)
+			var vals []*Pub
+			for _, v := range pubs {
+				if v.Lo > sr.hi || superseded(v) {
+					continue
+				}
+				if len(v.Payload) == 0 {
+					nonePossible = true
+					continue
+				}
+				vals = append(vals, v)
+
+			}
+			var copies []*Delivery
+			for _, d := range sr.retained {
+				if d != nil && d.Topic == t {
+					copies = append(copies, d)
+					used[d] = true
+				}
+			}
+			if len(fq) == 0 {
+				if len(copies) > 0 {
+					r.viol("C08", "retained-matches-filter", "C08/retained-for-non-matching-filter"+tag, "%s subscribed %q and received the retained message of topic %q, which matches none of the filters", sr.who, sr.filters, t)
+				}
+				continue
+			}
+			for _, d := range copies {
+				var src *Pub
+				for _, v := range vals {
+					if v.Key == d.Key {
+						src = v
+					}
+				}
+				if src == nil && d.Intact && strings.HasPrefix(sr.who, "in-process") {
+					// in-process callbacks see the retain flag of live forwards
+					// too: a retained-flag publish racing with the call is one
+					live := false
+					for _, p := range m.Pubs {
+						if p.Key == d.Key && p.Retain && p.Lo <= sr.hi && sr.lo <= p.Hi {
+							live = true
+						}
+					}
+					if live {
+						continue
+					}
+				}
+				if !d.Intact || src == nil {
+					r.viol("C08", "retained-payload", "C08/wrong-retained-payload"+tag, "%s subscribed %q and received a retained message for %q (%d bytes, key %s, intact=%v) that is not a value the topic could hold at that time; possible values: %s, none possible: %v", sr.who, sr.filters, t, len(d.Payload), d.Key, d.Intact, pubKeys(vals), nonePossible)
+					continue
+				}
+				okq := strings.HasPrefix(sr.who, "in-process") // (may be a live forward through another subscription)
+				for _, g := range fq {
+					if d.QoS == minq(src.QoS, g) {
+						okq = true
+					}
+				}
+				if !okq {
+					r.viol("C08", "retained-qos", "C08/wrong-retained-qos"+tag, "%s received the retained message of %q (stored QoS %d) at QoS %d; granted QoS of the matching filters: %v", sr.who, t, src.QoS, d.QoS, fq)
+				}
+			}
+			inprocOverlap := false
+			if strings.HasPrefix(sr.who, "in-process") {
+				// a live forward of a retained publish may land inside the call
+				inprocOverlap = true
+			}
+			switch {
+			case len(copies) > len(fq) && !inprocOverlap:
+				r.viol("C08", "retained-count", "C08/too-many-retained"+tag, "%s subscribed %q and received %d retained messages for topic %q (%d matching filter(s))", sr.who, sr.filters, len(copies), t, len(fq))
+			case len(vals) == 0 && len(copies) > 0:
+				// covered by wrong-retained-payload
+			case !nonePossible && len(vals) > 0 && (len(copies) < len(fq) || (len(copies) != len(fq) && !inprocOverlap)) && m.flushed(sr.c, sr.hi):
+				r.viol("C08", "retained-delivered", "C08/retained-missing"+tag, "%s subscribed %q (return codes %v, window [%d,%d]) while topic %q certainly held a retained message (possible values %s) but received %d retained message(s) for it instead of %d", sr.who, sr.filters, sr.codes, sr.lo, sr.hi, t, pubKeys(vals), len(copies), len(fq))
+			}
+		}
+		for _, d := range sr.retained {
+			if d != nil && !used[d] {
+				r.viol("C08", "retained-known-topic", "C08/retained-unknown-topic", "%s received a retained message on topic %q on which nothing was ever retained", sr.who, d.Topic)
+			}
+		}
+	}
+}
+
+func pubKeys(ps []*Pub) string {
+	var ks []string
+	for _, p := range ps {
+		ks = append(ks, fmt.Sprintf("%s(q%d,%dB,[%d,%d],certain=%v)", p.Key, p.QoS, len(p.Payload), p.Lo, p.Hi, p.Certain))
+	}
+	if len(ks) == 0 {
+		return "none"
+	}
+	return strings.Join(ks, " ")
+}
+
+// ---------------------------------------------------------------- C02 receiver side of QoS 1/2 (broker role)
+
+// checkReceiver judges hand-over counts and timing for application messages
+// that are sent more than once (DUP repeats) or released explicitly: per key,
+// every subscriber that certainly holds exactly one matching subscription over
+// all the windows must receive one copy per accepted QoS 0/1 PUBLISH and one
+// per released QoS 2 exchange, the latter not before its PUBREL.
+func (r *run) checkReceiver(m *Model) {
+	byKey := map[string][]*Pub{}
+	var keys []string
+	for _, p := range m.Pubs {
+		if p.Will || p.Retain {
+			continue
+		}
+		if _, ok := byKey[p.Key]; !ok {
+			keys = append(keys, p.Key)
+		}
+		byKey[p.Key] = append(byKey[p.Key], p)
+	}
+	sort.Strings(keys)
+	grantsBy := map[subKey][]*Grant{}
+	var subs []subKey
+	for _, g := range m.Grants {
+		k := subKey{g.C, g.CB}
+		if _, ok := grantsBy[k]; !ok {
+			subs = append(subs, k)
+		}
+		grantsBy[k] = append(grantsBy[k], g)
+	}
+	for _, key := range keys {
+		pubs := byKey[key]
+		topic := pubs[0].Topic
+		for _, sk := range subs {
+			// exactly one grant of this subscriber matches, and it certainly
+			// covers every window
+			var match []*Grant
+			for _, g := range grantsBy[sk] {
+				if refmqtt.ValidFilter(g.Filter) && refmqtt.Match(g.Filter, topic) {
+					match = append(match, g)
+				}
+			}
+			if len(match) != 1 || hasEmptyLevel(match[0].Filter) || hasEmptyLevel(topic) {
+				continue
+			}
+			g := match[0]
+			must, may := 0, 0
+			covered := true
+			var latest int64
+			for _, p := range pubs {
+				if p.Never {
+					continue
+				}
+				may++
+				if p.Certain {
+					must++
+				}
+				if !(g.CLo <= p.Lo && p.Hi <= g.CHi) {
+					covered = false
+				}
+				if p.Hi > latest {
+					latest = p.Hi
+				}
+			}
+			if !covered || !m.flushed(g.C, latest) {
+				continue
+			}
+			var copies []*Delivery
+			for _, d := range m.Deliv {
+				if d.C == sk.c && d.CB == sk.cb && d.Key == key && !d.Retain {
+					copies = append(copies, d)
+				}
+			}
+			who := subscriberName(sk.c, sk.cb)
+			if len(copies) > may {
+				r.viol("C02", "handed-on-once", "C02/handed-on-too-often"+qosTag(pubs), "%s received %d copies of application message %s (topic %q) but the sender's packets allow at most %d hand-overs: %s", who, len(copies), key, topic, may, fmtPubs(pubs))
+			}
+			if len(copies) < must {
+				r.viol("C02", "handed-on-once", "C02/handed-on-too-rarely"+qosTag(pubs), "%s received %d copies of application message %s (topic %q) but %d hand-overs are due: %s", who, len(copies), key, topic, must, fmtPubs(pubs))
+			}
+			// no hand-over of a QoS 2 message before its PUBREL
+			for _, d := range copies {
+				ok := false
+				for _, p := range pubs {
+					if !p.Never && d.Stamp >= p.Lo {
+						ok = true
+					}
+				}
+				if !ok {
+					r.viol("C02", "not-before-pubrel", "C02/handed-on-before-release", "%s received application message %s at stamp %d, before any PUBREL (or PUBLISH) that could release it: %s", who, key, d.Stamp, fmtPubs(pubs))
+				}
+			}
+		}
+	}
+	// unreleased QoS 2 exchanges must not be handed on at all (also covered by
+	// the routing oracle for keys sent once)
+	for _, key := range keys {
+		all := true
+		for _, p := range byKey[key] {
+			if !p.Never {
+				all = false
+			}
+		}
+		if !all {
+			continue
+		}
+		for _, d := range m.Deliv {
+			if d.Key == key && !d.Retain {
+				r.viol("C02", "not-before-pubrel", "C02/handed-on-without-release", "%s received application message %s although its QoS 2 exchange was never released by a PUBREL", subscriberName(d.C, d.CB), key)
+			}
+		}
+	}
+}
+
+func qosTag(pubs []*Pub) string {
+	return fmt.Sprintf("/qos%d", pubs[0].QoS)
+}
+
+func fmtPubs(ps []*Pub) string {
+	var parts []string
+	for _, p := range ps {
+		parts = append(parts, fmt.Sprintf("{q%d window[%s,%s] certain=%v unreleased=%v dup-repeats=%d}", p.QoS, st(p.Lo), st(p.Hi), p.Certain, p.Never, p.Repeats))
+	}
+	return strings.Join(parts, " ")
 }
